@@ -53,6 +53,32 @@ fn int_forms(ints: &[E], bools: &[E], full: bool) -> Vec<E> {
                 "contains".into(),
                 vec![r.clone()],
             ).pipe_bool());
+            // operands and receivers are snapshots: an assignment to the
+            // variable inside a LATER operand / argument must not be seen
+            for (op, is_bool) in [(BinOp::Sub, false), (BinOp::Mul, false), (BinOp::Lt, true), (BinOp::Eq, true), (BinOp::Ne, true)] {
+                let rhs = E::Block(blk(vec![S::Expr(E::Assign(vec!["x".into()], Box::new(r.clone())))], Some(E::Int(1, None, I32))));
+                let e = bin(op, var("x"), rhs);
+                let e = if is_bool { e.pipe_bool() } else { e };
+                out.push(E::Block(blk(vec![S::Let("x".into(), Some(Ty::Int(I32)), l.clone())], Some(e))));
+            }
+            {
+                // x.contains({ x = es(r); es(l) }): the receiver is the OLD x
+                let arg = E::Block(blk(
+                    vec![S::Expr(E::Assign(vec!["x".into()], Box::new(E::Host("es".into(), vec![r.clone()]))))],
+                    Some(E::Host("es".into(), vec![E::Int(7, None, I32)])),
+                ));
+                let call = E::Method(Box::new(var("x")), "contains".into(), vec![arg]).pipe_bool();
+                out.push(E::Block(blk(
+                    vec![S::Let("x".into(), Some(Ty::Str), E::Host("es".into(), vec![E::Int(7, None, I32)]))],
+                    Some(call),
+                )));
+                // h2(x, { x = r; 2 }): call arguments are snapshots too
+                let arg2 = E::Block(blk(vec![S::Expr(E::Assign(vec!["x".into()], Box::new(r.clone())))], Some(E::Int(2, None, I32))));
+                out.push(E::Block(blk(
+                    vec![S::Let("x".into(), Some(Ty::Int(I32)), l.clone())],
+                    Some(E::Call("h2".into(), vec![var("x"), arg2])),
+                )));
+            }
             // receiver and argument are both calls that log when they run
             out.push(E::Method(
                 Box::new(E::Host("es".into(), vec![l.clone()])),
